@@ -72,7 +72,9 @@ def build(rng, k):
         fin, disp = rng.choice(FINALS)
         err, diag = False, False
     body.append(fin)
-    return "\n".join(body) + "\n", disp, err, diag, fin
+    # leading / trailing blank lines and a leading comment: the text is run as it is (line numbers count from its first line)
+    lead = rng.choice(["", "", "\n", "\n\n\n", "// header\n", "  \n\t\n"])
+    return lead + "\n".join(body) + "\n" + rng.choice(["", "", "\n\n"]), disp, err, diag, fin
 
 
 def cases(ctx):
@@ -125,7 +127,8 @@ def run_one(exe, scratch, idx, c):
             return None
         return ls[1:]
     p1, p2 = strip_argv(o1), strip_argv(o2)
-    same = p2.startswith(p1)
+    # the diagnostics (with their line numbers) are part of "what running the text does": file and -c must report the same
+    same = p2.startswith(p1) and e1 == e2
     extra = p2[len(p1):] if same else ""
     a1, a2 = argv_of(o1), argv_of(o2)
     diag1 = ("parse errors" in e1) or ("compile error" in e1)
